@@ -24,7 +24,9 @@ TECHNIQUE = "generated diagnostics through the real renderer, output parsed by a
 RULE = ("files of 1-40 lines, indentation 0-24, blank lines, long lines; primary span single- or "
         "multi-line at any valid position (start/end inside text, at line ends, zero-length); 0-3 "
         "sub-diagnostics with/without spans; labels and messages of 1-40 words incl. words longer than "
-        "the wrap width and embedded newlines. distinct = (span shape, indentation class, children "
+        "the wrap width and embedded newlines; a third of the sources are registered over an earlier "
+        "registration of the same file name (the rendering must show the latest text); one gutter column "
+        "per rendered diagnostic. distinct = (span shape, indentation class, children "
         "kinds, text classes)")
 FLOORS = {"diagnostics_rendered": 500, "snippets_checked": 500, "words_checked": 2000}
 
@@ -136,8 +138,19 @@ def build(rng, small, allow_ws):
     file = "src.py"
     lines = gen_source(rng, small)
     sm = SourceMap()
+    prev = None
+    if rng.random() < 0.35:
+        # history: the same file name was registered before with other content (an edited and
+        # re-loaded module); diagnostics must show the latest registration
+        prev = gen_source(rng, rng.random() < 0.5)
+        sm.add_file(file, "\n".join(prev))
+        if rng.random() < 0.3:
+            sm.add_file("other.py", "\n".join(gen_source(rng, True)))
     sm.add_file(file, "\n".join(lines))
-    stored = sm.sources[file]
+    # the oracle's copy of the text is derived from what was registered last, not read back from
+    # the SourceMap (a stale map must not agree with itself)
+    stored = "\n".join(lines).splitlines(keepends=False)
+    sm._vf_prev = prev
     span = gen_span(rng, file, stored, allow_ws)
     if span is None:
         return None
@@ -172,6 +185,7 @@ class Walker:
         self.problems = []
         self.snippets = 0
         self.words = 0
+        self.bars = {}  # column of the gutter bar -> first line showing it
 
     def fail(self, what, detail=""):
         self.problems.append((what, detail))
@@ -187,6 +201,7 @@ class Walker:
         m = re.match(r"^( *)(\d*) \| ?(.*)$", line if line is not None else "\0")
         if not m:
             return None
+        self.bars.setdefault(len(m.group(1)) + len(m.group(2)) + 1, line)
         return m.group(2), line[len(m.group(1)) + len(m.group(2)) + 3:]
 
     def snippet(self, span, label, primary, prefix_lines):
@@ -327,7 +342,14 @@ def check_render(buf, stored, d):
                     break
     if not w.problems and w.pos != len(buf):
         w.fail("trailing-output", repr(buf[w.pos:w.pos + 3]))
+    if not w.problems and len(w.bars) > 1:
+        # numbered lines and the highlight lines below them must share one gutter, otherwise the
+        # markers do not sit under the spanned columns in the output the user reads
+        w.fail("gutter-bar-misaligned", repr(sorted(w.bars.items())[:3]))
     return w
+
+
+PREV = {}  # id(diagnostic) -> earlier content registered under the same file name (for witnesses)
 
 
 def describe(stored, d):
@@ -337,7 +359,7 @@ def describe(stored, d):
         s = to_span(s)
         return [s.start.line, s.start.column, s.end.line, s.end.column]
 
-    return {"source": stored, "span": sp(d.span), "title": d.rendered_title,
+    return {"source": stored, "previous_registration": PREV.get(id(d)), "span": sp(d.span), "title": d.rendered_title,
             "label": d.rendered_span_label, "message": d.rendered_message,
             "children": [{"level": k.level.name, "span": sp(k.span) if k.span is not None else None,
                           "label": k.rendered_span_label, "message": k.rendered_message}
@@ -434,6 +456,8 @@ def run_case(ctx, rng, idx, params, tier):
         if b is None:
             continue
         sm, stored, d = b
+        PREV.clear()
+        PREV[id(d)] = sm._vf_prev
         vs, w = judge(stored, sm, d)
         counters["diagnostics_rendered"] += 1
         if w is not None:
@@ -460,8 +484,10 @@ def replay(ctx, w):
     from guppylang_internals.span import Loc, SourceMap, Span
 
     sm = SourceMap()
+    if w.get("previous_registration") is not None:
+        sm.add_file("src.py", "\n".join(w["previous_registration"]))
     sm.add_file("src.py", "\n".join(w["source"]))
-    stored = sm.sources["src.py"]
+    stored = "\n".join(w["source"]).splitlines(keepends=False)
 
     def sp(x):
         return Span(Loc("src.py", x[0], x[1]), Loc("src.py", x[2], x[3]))
